@@ -481,10 +481,10 @@ class AttributeSet(TypedExpression):
         """Delete a binding by key and surface missing keys explicitly."""
         for i, binding in enumerate(self.values):
             if isinstance(binding, Binding) and binding.name == key:
-                rendered_last = (
-                    self.attrpath_order[-1] is binding
-                    if self.attrpath_order
-                    else i == len(self.values) - 1
+                order = self.attrpath_order or self.values
+                position = next(
+                    (index for index, item in enumerate(order) if item is binding),
+                    None,
                 )
                 del self.values[i]
                 if self.attrpath_order:
@@ -492,13 +492,13 @@ class AttributeSet(TypedExpression):
                         if item is binding:
                             del self.attrpath_order[index]
                             break
-                if rendered_last:
-                    self._keep_closing_comments(binding)
+                if position is not None:
+                    self._keep_own_line_comments(binding, position)
                 return
         raise KeyError(key)
 
-    def _keep_closing_comments(self, removed: Binding) -> None:
-        """Own-line comments after the last binding belong to the set, not to it."""
+    def _keep_own_line_comments(self, removed: Binding, position: int) -> None:
+        """Own-line comments after a binding are not part of it: keep them in the set."""
         start = next(
             (
                 index
@@ -509,24 +509,36 @@ class AttributeSet(TypedExpression):
         )
         if start is None:
             return
-        closing = removed.after[start:]
-        if not any(isinstance(item, Comment) for item in closing):
+        kept = removed.after[start:]
+        if not any(isinstance(item, Comment) for item in kept):
             return
         order = self.attrpath_order or self.values
-        previous = order[-1] if order else None
-        if isinstance(previous, _AttrpathEntry):
+        following = order[position] if position < len(order) else None
+        previous = order[position - 1] if position > 0 else None
+        if following is not None:
+            above = [item for item in kept if item is not linebreak]
+            if isinstance(following, _AttrpathEntry):
+                base = (
+                    following.before
+                    if following.before is not None
+                    else following.binding.before
+                )
+                following.before = above + list(base)
+            else:
+                following.before = above + list(following.before)
+        elif isinstance(previous, _AttrpathEntry):
             base = (
                 previous.after if previous.after is not None else previous.binding.after
             )
-            previous.after = list(base) + closing
-        elif previous is None:
-            while closing and not isinstance(closing[0], Comment):
-                closing = closing[1:]
+            previous.after = list(base) + kept
+        elif previous is not None:
+            previous.after = list(previous.after) + kept
+        else:
+            while kept and not isinstance(kept[0], Comment):
+                kept = kept[1:]
             self.inner_trivia = [
-                item for item in closing if item is not linebreak
+                item for item in kept if item is not linebreak
             ] + list(self.inner_trivia)
-        elif hasattr(previous, "after"):
-            previous.after = list(previous.after) + closing
 
 
 __all__ = ["AttributeSet"]
